@@ -170,6 +170,9 @@ def snapshot(cell):
     return f
 
 
+UP_ARRAY = 'std::unique_ptr<double[]>'
+
+
 class OwnHooks(StdHooks):
     def __init__(self, world):
         StdHooks.__init__(self)
@@ -177,7 +180,52 @@ class OwnHooks(StdHooks):
         self.cache_region = None
 
     def tracked_record(self, rec):
-        return rec == SUV
+        return rec == SUV or rec == UP_ARRAY
+
+    # -- std::unique_ptr<double[]>: a scoped owner of a raw block (released when the scope is left, also by an exception)
+    def external_destroy(self, it, cell):
+        o = cell.value
+        if isinstance(o, Obj) and o.rec == UP_ARRAY:
+            p = o.fields['p'].value if 'p' in o.fields else NULL
+            if isinstance(p, Ptr) and not p.is_null():
+                self.on_delete(it, {'l': None}, p, True)
+                o.fields['p'].value = NULL
+
+    def unique_array_call(self, it, meth, node, args, this_cell):
+        if not meth.startswith('operator'):
+            meth = meth.split('<')[0]
+        if meth == 'unique_ptr':
+            o = Obj(UP_ARRAY, None, this_cell.name if this_cell is not None else None)
+            if node.get('moveCtor') and args:
+                src = it.lval(args[0]).value
+                o.field('p').value = src.fields['p'].value
+                src.fields['p'].value = NULL
+            else:
+                p = it.eval(args[0]) if args else NULL
+                o.field('p').value = NULL if (isinstance(p, int) and p == 0) else p
+            this_cell.value = o
+            return None
+        if meth == '~unique_ptr':
+            self.external_destroy(it, this_cell)
+            return None
+        o = this_cell.value
+        p = o.fields['p'].value
+        if meth == 'get':
+            return p
+        if meth == 'operator[]':
+            return it.deref(it.ptr_add(p, it.eval(args[0])), node)
+        if meth == 'operator bool':
+            return 0 if p.is_null() else 1
+        if meth == 'release':
+            o.fields['p'].value = NULL
+            return p
+        if meth == 'reset':
+            np_ = it.eval(args[0]) if args else NULL
+            if isinstance(p, Ptr) and not p.is_null():
+                self.on_delete(it, node, p, True)
+            o.fields['p'].value = NULL if (isinstance(np_, int) and np_ == 0) else np_
+            return None
+        raise Unsupported('std::unique_ptr<double[]>::%s at %s' % (meth, it.loc(node)))
 
     # -- memory
     def on_new(self, it, node, count, elem_type):
@@ -273,6 +321,10 @@ class OwnHooks(StdHooks):
                 raise Violation('B.acc', 'block %s inserted into the cache while %s' % (b.region.name, b.state), it.loc(node))
             if not isinstance(st.off, int) or st.off != off:
                 raise Violation('B.acc', 'cached entry of %s records offset %s but the pointer is at +%s' % (b.region.name, off, st.off), it.loc(node))
+            if isinstance(dim, int) and isinstance(off, int) and isinstance(b.region.size, int) and b.region.size - off < dim * dim:
+                raise Violation('B.acc', 'block %s (%d doubles from offset %d) is filed in the cache of dimension %d, whose vectors need %d doubles: '
+                                'the next vector of that dimension served from the cache overruns it' % (b.region.name, b.region.size - off, off, dim, dim * dim),
+                                it.loc(node))
             b.state = 'cached'
             b.cached_offset = off
             w.cache.setdefault(dim, []).append(b)
@@ -295,6 +347,8 @@ class OwnHooks(StdHooks):
         return NotImplemented
 
     def external_call(self, it, name, node, args, this_cell):
+        if name.startswith('std::unique_ptr<double[]'):
+            return self.unique_array_call(it, name.split('>::')[-1] if '>::' in name else name.split('::')[-1], node, args, this_cell)
         if name.startswith('std::multiplies<double>::operator()'):
             a, b = it.eval(args[0]), it.eval(args[1])
             a = a.value if isinstance(a, Cell) else a
